@@ -10,6 +10,7 @@ sys.path.insert(0, str(Path(__file__).resolve().parent))
 sys.path.insert(0, str(Path(__file__).resolve().parent.parent / 'translate'))
 import lib  # noqa
 import c19_caches  # noqa
+import c19_slots  # noqa
 
 SOLID = ('tet', 'hex', 'prism')
 SHELL = ('tri', 'quad')
@@ -456,6 +457,9 @@ def signature_of0(hist, cfgq):
             if 'elements' in ops[0]['kwargs'] and 'elements' not in last['kwargs']:
                 return {'kind': 'slot-partial', 'query': q}
             return {'kind': 'slot-key', 'query': q}
+        if len(ops) == 3 and all(x['op'] == 'query' and x['q'] == q for x in ops) \
+                and ops[0]['o'] == last['o'] != ops[1]['o']:
+            return {'kind': 'slot-key-cross-object', 'query': q}
         if len(ops) == 3 and ops[0]['op'] == 'query' and ops[1]['op'] == 'derive':
             return {'kind': 'share', 'deriv': ops[1]['d'], 'query': q,
                     'on': 'child' if last['o'] == ops[1]['o2'] else 'parent'}
@@ -728,6 +732,12 @@ def witness_histories(ctx, fails, cat, cfgq, effects):
                     h = [{'op': 'new', 'o': 0, 'mesh': m}, q_op(0, a, dict(base, **{b: v1})),
                          q_op(0, a, dict(base, **{b: v2}))]
                     out.append((f, h))
+                    # "... on this or on other mesh objects": what is recorded about a stored result
+                    # must belong to the object (another object asks with the other value in between)
+                    m2 = gen_mesh(rng, m['kind'], m['features'])
+                    out.append((f, [{'op': 'new', 'o': 0, 'mesh': m}, {'op': 'new', 'o': 1, 'mesh': m2},
+                                    q_op(0, a, dict(base, **{b: v1})), q_op(1, a, dict(base, **{b: v2})),
+                                    q_op(0, a, dict(base, **{b: v2}))]))
         elif k == 'share':
             kinds = DERIVS.get(a, SOLID)
             for kind in kinds[:2]:
@@ -874,6 +884,13 @@ def main(ctx):
                        'of each theorem; gen/CacheCfg.v and gen/Status.v regenerated from the tree under test')
     ctx.notes['cfg_ok'] = cfg_ok
     ctx.notes['model_failing_clauses'] = len(fails or [])
+
+    # ---- the concrete slot protocol (coq/C19/Slot.v) against the implementation, evaluated in Coq
+    if proof_ok:
+        n_slot = 150 if ctx.tier == 'quick' and degraded is None else 600
+        for k in range(0, n_slot, 300):
+            c19_slots.run(ctx, gen_mesh, min(300, n_slot - k), tag=f'_{k // 300}')
+        ctx.log('slot correspondence:', ctx.notes.get('slot_correspondence'))
 
     # catalogue = known queries + memoised queries of the inventory the catalogue does not know
     cat = dict(CATALOGUE)
@@ -1144,6 +1161,22 @@ def replay(path):
         scratch = lib.BUILD / 'C19'
     ctx = _Scratch()
     ctx.scratch.mkdir(parents=True, exist_ok=True)
+    if rp['case'].get('slot_case'):
+        class _C:                        # minimal stand-in for lib.Ctx (see above)
+            scratch = lib.BUILD / 'C19'
+            notes, corr = {}, {'cases': 0, 'disagreements': 0}
+            coq_eval = lib.Ctx.coq_eval
+
+            def count(self, *a):
+                pass
+
+            def violation(self, *a, **k):
+                print('model (Slot.v) and implementation DISAGREE on this slot history:', json.dumps(a[3])[:1500])
+        c = _C()
+        c.scratch.mkdir(parents=True, exist_ok=True)
+        n = c19_slots.run(c, gen_mesh, 1, tag='_replay', cases=[rp['case']['slot_case']])
+        print('property', 'VIOLATED' if n else 'holds', 'on this slot history')
+        return 1 if n else 0
     hist = rp['case'].get('history')
     if not hist:
         print('nothing to replay on the implementation:', json.dumps(rp, indent=1)[:2000])
